@@ -561,7 +561,7 @@ class SessionRec:
                     rel = []
                     for x in range(d):
                         w = rb[x][1] - rb[x][0]
-                        rel.append(int(round((raw[x] - rb[x][0]) / w * (1 << 30))) if w > 0 and math.isfinite(w) else -1)
+                        rel.append(max(-(1 << 30), min((1 << 31) - 1000, int(round((raw[x] - rb[x][0]) / w * (1 << 30))))) if w > 0 and math.isfinite(w) else -1)
                     e["rel"] = rel
             if "pts" in e:
                 e["pts"] = [[rk(x, q[x]) for x in range(d)] if q is not None and len(q) == d else [0] * d for q in ev["pts"]]
